@@ -100,7 +100,13 @@ class DictProxy(dict):
         super().__setitem__(key, value)
 
     def _ref_path(self, key: str) -> str:
-        return "%s[%s]" % (self.dict_field._ref_path, key)
+        base = getattr(self.cfg, "_ref_path", None)
+        if isinstance(base, str):
+            # path of the owning configuration (knows list positions), then the field
+            path = "%s.%s" % (base, self.dict_field._key) if base else self.dict_field._key
+        else:
+            path = self.dict_field._ref_path
+        return "%s[%s]" % (path, key)
 
     def _validate(self, key: Any, value: Any) -> Tuple[Any, Any]:
         try:
